@@ -161,7 +161,7 @@ CLAIMED = {
             "Coq proof by induction over the step list + differential correspondence (vm_compute)", "7/C18"),
     "C05": ("Theorem C05_history_coherent: after ANY finite history of update/regenerate/mh-shaped/mala-hmc-shaped moves (accepted or rejected) and identity round trips "
             "the trace is coherent w.r.t. its recorded arguments (induction over the history); update weights telescope. 'Observed addresses keep their values' is judged "
-            "per case by the correspondence only.",
+            "per case by the correspondence only (random edit histories, and real mala / hmc / mh kernel steps with scripted noise: frame, accept rule, coherence of the returned trace).",
             GFI_NOTE, "Coq proof by induction over histories (fold over ops) + differential correspondence (vm_compute)", "7/C05"),
 }
 PENDING_REASON = "check not built yet in this session (planned; see DESIGN.md section 7)"
